@@ -85,6 +85,14 @@ func TestVerifC05GeoIPCache(t *testing.T) {
 	for _, s := range v6 {
 		pool = append(pool, netip.MustParseAddr(s))
 	}
+	// for some IPv4 addresses the IPv6 address that starts with the same three octets followed by zeros
+	// (a.b.c.0/24 and aabb:cc00::/56 written as raw bytes look alike): another family, another place
+	for _, s := range v4[:6] {
+		a := netip.MustParseAddr(s).As4()
+		var b [16]byte
+		b[0], b[1], b[2], b[15] = a[0], a[1], a[2], 1
+		pool = append(pool, netip.AddrFrom16(b))
+	}
 	cold := map[netip.Addr]string{}
 	for _, a := range pool {
 		cold[a] = c05GeoDigest(c05GeoFile(t, 1), a)
